@@ -84,8 +84,18 @@ func (c *Ctx) fresh(prefix string) string {
 	return fmt.Sprintf("%s!%d", sanitize(prefix), c.n)
 }
 
+// ensureSorts declares the uninterpreted sorts mentioned in a sort expression.
+func (c *Ctx) ensureSorts(sort string) {
+	for _, t := range tokens(sort) {
+		if strings.HasPrefix(t, "TP_") || t == "Str" || t == "Unit" {
+			c.DeclSort(t)
+		}
+	}
+}
+
 // Fresh declares a new uninterpreted constant.
 func (c *Ctx) Fresh(prefix, sort string) string {
+	c.ensureSorts(sort)
 	name := c.fresh(prefix)
 	c.items = append(c.items, fmt.Sprintf("(declare-fun %s () %s)", name, sort))
 	c.funs[name] = sort
@@ -112,8 +122,23 @@ func (c *Ctx) DeclFun(name string, args []string, res string) {
 	if _, ok := c.funs[name]; ok {
 		return
 	}
+	c.ensureSorts(strings.Join(args, " ") + " " + res)
 	c.funs[name] = "(" + strings.Join(args, " ") + ") " + res
 	c.items = append(c.items, fmt.Sprintf("(declare-fun %s (%s) %s)", name, strings.Join(args, " "), res))
+}
+
+// ConstArr returns an array term whose every element is val (cvc5 accepts `as const` only for value terms).
+func (c *Ctx) ConstArr(ksort, vsort, val string) string {
+	switch val {
+	case "0", "false", "true", "0.0":
+		return fmt.Sprintf("((as const %s) %s)", arrSort(ksort, vsort), val)
+	}
+	name := "constarr_" + sanitize(ksort+"_"+vsort+"_"+val)
+	if _, ok := c.funs[name]; !ok {
+		c.DeclFun(name, nil, arrSort(ksort, vsort))
+		c.Assume(fmt.Sprintf("(forall ((i %s)) (! (= (select %s i) %s) :pattern ((select %s i))))", ksort, name, val, name))
+	}
+	return name
 }
 
 func (c *Ctx) Assume(term string) {
@@ -383,6 +408,12 @@ func (o *Obligation) Solve(opts SolveOpts) {
 		short = 1500
 	}
 	wantModel := o.Expected == "sat"
+	if o.Expected == "sat" {
+		// vacuity cover: one solver, short budget; anything but a definite unsat is fine
+		r, _, _ := runSolver(first, o.Script(first.Name, 2000, false), opts.Dir, o.Name, 2000)
+		o.Result, o.Solver, o.TimeS = r, first.Name, time.Since(t0).Seconds()
+		return
+	}
 	r, out, _ := runSolver(first, o.Script(first.Name, short, wantModel), opts.Dir, o.Name, short)
 	if r == want || r == "sat" {
 		o.Result, o.Solver, o.TimeS = r, first.Name, time.Since(t0).Seconds()
